@@ -150,16 +150,24 @@ def run(ctx):
         ctx.ob('COMPLETION-GATE', 'B:send', False, '-', 'receive loop completing /rr/ requests not found (anchor)')
     else:
         ctx.touch(recv, len(recv.calls()))
+        # the connection id: what ant_peer_id_to_string makes of the peer id in the receive tuple (identified by provenance)
+        conn_locals = set()
+        src_ok = False
+        for cc in recv.calls(r'::ant_peer_id_to_string$'):
+            if cc.dest:
+                e = F.Expr('call', cc.callee, [recv.expr(a) for a in cc.args], cc)
+                if 'postcard' not in e.show():
+                    conn_locals |= L.alias_of(recv, [cc.dest[0]])
+                    src_ok = True
+        # clones of it are the same id
+        for cc in recv.calls(r'Clone>::clone$'):
+            if cc.dest and cc.args and 'p' in cc.args[0] and cc.args[0]['p'][0] in conn_locals:
+                conn_locals |= L.alias_of(recv, [cc.dest[0]])
+        conn_b = frozenset(conn_locals)
         for i, c in enumerate(recv.calls(SEND)):
             conds = F.dominating_conds(recv, c.bb)
             idm = any(cd.kind == 'disc' and cd.variant_is(1) and cd.expr.mentions_call(r'HashMap::<.*>::(get|remove)$') is not None and 'message_id' in cd.expr.show() for cd in conds)
-            auth, why = _sender_gate(recv, conds, expected=('expected_peer',), conn=('transport_peer_id',))
-            # the connection id comes from the receive tuple, not from the payload
-            src_ok = False
-            for l in recv.locals_named('transport_peer_id'):
-                e = F.Expr.of_local(recv, l, 30)
-                src_ok = e.mentions_call(r'::ant_peer_id_to_string$') is not None and e.mentions_call(r'Receiver::<.*>::recv$|::recv$') is not None or \
-                    (e.mentions_call(r'::ant_peer_id_to_string$') is not None and 'postcard' not in e.show())
+            auth, why = _sender_gate(recv, conds, expected=('expected_peer',), conn=conn_b)
             rm = recv.expr(c.args[0]).mentions_call(r'HashMap::<.*>::remove$')
             ctx.ob('COMPLETION-GATE', 'B:send#%d:id' % i, idm, c.where(), 'completion dominated by the lookup of the envelope\'s message_id: %s' % idm)
             ctx.ob('COMPLETION-GATE', 'B:send#%d:sender' % i, auth and src_ok, c.where(), 'completion dominated by expected_peer == transport_peer_id (%s%s), transport_peer_id derived from the receive tuple (%s)' % (auth, why, src_ok))
@@ -171,7 +179,7 @@ def run(ctx):
             okat = bool(pts) and any(all(recv.dominates(g.def_bb, p) and L.atomic_section(recv, g, p, c.bb)[0] for p in pts) for g in gs)
             ctx.ob('AT-MOST-ONCE', 'B:send#%d:one-guard' % i, okat, c.where(), 'expected-peer check and remove under one write guard, no await: %s' % okat)
     if recv is not None:
-        _no_unauth_effect(ctx, recv, 'B', 'active_requests', ('expected_peer',), ('transport_peer_id',), TH + '::start_message_receiving_system')
+        _no_unauth_effect(ctx, recv, 'B', 'active_requests', ('expected_peer',), conn_b, TH + '::start_message_receiving_system')
     fty = prog.field_ty('network::PendingRequest', 'response_tx')
     ctx.ob('AT-MOST-ONCE', 'B:type', 'oneshot::Sender' in fty, 'src/network.rs', 'PendingRequest.response_tx : %s' % fty)
 
@@ -268,6 +276,9 @@ def _sender_gate(b, conds, expected, conn):
     """is there a dominating fact equating an `expected` field of the pending entry with the
     connection id (`conn` names)? handles ==, != (false edge) and `a == s || list.contains(s)` locals."""
     def mentions(e, names):
+        if isinstance(names, (set, frozenset)):
+            # an alias class of locals (the connection id identified by provenance, not by its name)
+            return bool(L.expr_locals(e) & names)
         t = e.show()
         nm = L._names(e) + ' ' + ' '.join(x.b or '' for x in e.walk() if x.k == 'param')
         return any(n in t or n in nm for n in names)
@@ -316,7 +327,7 @@ def _sender_gate(b, conds, expected, conn):
                 if good:
                     _sender_gate.last_bb = min(d[1] for d in ds)
                     return True, ' (via local `%s`)' % (ex.b or ex.a)
-        if cd.kind == 'cmp' and cd.op == 'Eq' and mentions(cd.lhs, expected + conn) and mentions(cd.rhs, expected + conn):
+        if cd.kind == 'cmp' and cd.op == 'Eq' and (mentions(cd.lhs, expected) or mentions(cd.lhs, conn)) and (mentions(cd.rhs, expected) or mentions(cd.rhs, conn)):
             _sender_gate.last_bb = _eval_bb(cd)
             return True, ''
     _sender_gate.last_bb = None
